@@ -104,12 +104,64 @@ def scenarios(ctx):
     return out
 
 
+def fe_scenarios(ctx):
+    """second callers at the HTTP front end (cmd/aws-lambda-rie InvokeHandler): requests arriving together on a fresh
+    emulator (the sandbox must be initialised once, F-C10-2), a second request during the cold start, in flight,
+    and while the first one is being timed out"""
+    out = []
+    reps = 6 if ctx.quick else 30
+    for i in range(reps):
+        s = Scn("c10-fe-first%02d" % i, ext=[], timeout_ms=1000, frontEnd=True, opWaitMs=6000)
+        s.meta(family="frontend-second", phase="together")
+        a = s.invoke(caller=1, size=3, seed=1 + i)
+        b = s.invoke(caller=2, size=3, seed=100 + i)
+        if i % 2:
+            c = s.invoke(caller=3, size=3, seed=200 + i)
+        s.await_exec(kind="rt")
+        t = s.call("rt", "next", async_=True)
+        s.wait(t)
+        s.call("rt", "response", id="current", body="answer-%d" % i)
+        tags = {"rt": s.poll("rt")}
+        s.wait(a)
+        s.wait(b)
+        if i % 2:
+            s.wait(c)
+        s.round(tags, {})
+        out.append(s.done())
+    for i, phase in enumerate(["cold", "inflight", "timing-out"]):
+        s = Scn("c10-fe-%s" % phase, ext=[], timeout_ms=1000, frontEnd=True, opWaitMs=8000)
+        s.meta(family="frontend-second", phase=phase)
+        a = s.invoke(caller=1, size=5, seed=7)
+        s.await_exec(kind="rt")
+        if phase == "cold":
+            s.invoke(async_=False, caller=2, size=5, seed=8)      # the runtime has not polled yet
+        t = s.call("rt", "next", async_=True)
+        s.wait(t)
+        if phase == "inflight":
+            s.invoke(async_=False, caller=2, size=5, seed=8)
+        if phase == "timing-out":
+            s.sleep(990)
+            b = s.invoke(caller=2, size=5, seed=8)                # around the expiry of the first one
+            s.wait(a)
+            s.wait(b)
+            s.recover({})
+        else:
+            s.call("rt", "response", id="current", body="first")
+            tags = {"rt": s.poll("rt")}
+            s.wait(a)
+            s.round(tags, {})
+        out.append(s.done())
+    return out
+
+
 def run(ctx):
     ctx.level = "model_checking"
+    sc.frontend_model(ctx)
     # E1: the property predicates as invariants of the composite (spec/MC_Rapid.tla)
     mcrapid.check(ctx, ['NoCrash', 'StreamOwnerIsReserver'])
     ctx.assumptions += sc.ASSUME
     sc.run_families(ctx, scenarios(ctx), "second-caller")
+    sc.run_families(ctx, fe_scenarios(ctx), "frontend-second")
     ctx.coverage["exhaustive"] = False
 
 
